@@ -67,6 +67,10 @@ EXPLANATION += (
     ' Round 6: integrality tests take the largest absolute deviation (R-IDIOM/abs-of-extremum); no HDF5 name is created twice in a group (R-TYPESTATE/h5-name-once, finding F8).'
 )
 
+EXPLANATION += (
+    ' Round 7: the integer type is chosen from the np.round-ed extremes against both bounds of the type (R-ARITH/int-width).'
+)
+
 RULE_TEXT = (
     "one obligation per effect root, per mutating helper call, per "
     "rejection point, per log conditional, per layer argument, per uns "
@@ -104,6 +108,7 @@ def check(ctx):
     check_uns(ctx, inner)
     check_lookup_by_given_name(ctx)
     check_mapper_consulted(ctx)
+    check_int_width(ctx)
     # the files validation writes are assembled without creating a name
     # twice (sa/rules/h5names.py)
     from ..rules.h5names import check_h5_names_created_once
@@ -750,3 +755,95 @@ def check_mapper_consulted(ctx):
                'not clipped and nothing is recorded',
                witness=cfg.fmt_path(p) if p else None)
         k += 1
+
+
+def check_int_width(ctx):
+    """the integer type of the rounded matrix is chosen by
+    choose_int_dtype from the extremes of the data.  It is wide enough
+    for every value only if (1) the extremes are rounded the way the data
+    is rounded when it is written (np.round: -0.7 becomes -1, which an
+    unsigned type cannot hold), and (2) a type is accepted when *both*
+    rounded extremes lie within that type's own bounds, minimum against
+    minimum and maximum against maximum (int8 holds -128 but not +128)."""
+    db = ctx.db
+    fi = db.fn('utils.utils:choose_int_dtype')
+    ctx.touch(fi)
+    cfg = cfg_of(fi)
+    rd = rd_of(fi)
+    ex = Expander(fi)
+    rule = 'R-ARITH/int-width'
+    lo_want = ('sub', ('param', 'x_minmax'), ('const', '0'))
+    hi_want = ('sub', ('param', 'x_minmax'), ('const', '1'))
+
+    def rounded(t, want):
+        """t is np.round(want) / round(want) / np.rint(want)"""
+        while t[0] == 'call' and T.call_name(t) in (
+                'int', 'float', 'int64') and t[2]:
+            t = t[2][0]
+        return t[0] == 'call' and T.call_name(t) in (
+            'round', 'rint', 'around') and t[2] and t[2][0] == want
+
+    accept = []
+    for n in cfg.nodes:
+        if n.kind != 'if' or n.id not in rd.live:
+            continue
+        t = ex.expand(n.ast.test, n.id)
+        if not any(T.call_name(x) == 'iinfo' for x in T.subterms(t)
+                   if x[0] == 'call'):
+            continue
+        accept.append((n, t))
+    if not accept:
+        raise AnalysisError('choose_int_dtype: the test that accepts a '
+                            'candidate type was not found')
+    for k, (n, t) in enumerate(accept):
+        while t[0] == 'unop' and t[1] == 'Not':
+            t = t[2]            # `if not (fits): continue` accepts alike
+        conj = list(t[2]) if t[0] == 'boolop' and t[1] == 'And' else [t]
+        lo_ok = hi_ok = False
+        lo_round = hi_round = False
+        for c in conj:
+            lf = T.lt_form(c)
+            if lf is None or lf[0] != 'LtE':
+                continue
+            small, big = lf[1], lf[2]
+            # iinfo(candidate).min <= lo
+            if small[0] == 'attr' and small[2] == 'min' \
+                    and T.call_name(small[1]) == 'iinfo':
+                lo_ok = any(x == lo_want for x in T.subterms(big))
+                lo_round = rounded(big, lo_want)
+            # hi <= iinfo(candidate).max
+            if big[0] == 'attr' and big[2] == 'max' \
+                    and T.call_name(big[1]) == 'iinfo':
+                hi_ok = any(x == hi_want for x in T.subterms(small))
+                hi_round = rounded(small, hi_want)
+        ok = lo_ok and hi_ok
+        ctx.ob(rule, f'choose_int_dtype:bounds#{k}', fi.loc(n.ast), ok,
+               'a type is accepted when the minimum is not below its '
+               'minimum and the maximum not above its maximum' if ok else
+               f'`{unparse(n.ast.test)[:70]}` does not compare the minimum '
+               'with the type\'s minimum and the maximum with the type\'s '
+               'maximum: a value outside the accepted type wraps around '
+               'when it is stored')
+        okr = lo_round and hi_round
+        ctx.ob(rule, f'choose_int_dtype:rounding#{k}', fi.loc(n.ast), okr,
+               'the extremes are rounded with np.round, as the data is '
+               'when it is written' if okr else
+               'the extremes compared with the type\'s bounds are not '
+               'np.round(x_minmax[0]) / np.round(x_minmax[1]): the data '
+               'is written as np.round(chunk), so an extreme that rounds '
+               'away from zero (-0.7 -> -1, 127.5 -> 128) lands outside '
+               'the chosen type')
+    # the writer rounds with the same function
+    w = db.fn('validation.utils:round_x_to_integers')
+    n_round = sum(1 for f_ in db.iter_functions()
+                  if f_.module.short == 'validation.utils'
+                  for c in ast.walk(f_.node)
+                  if isinstance(c, ast.Call) and isinstance(
+                      c.func, ast.Attribute) and c.func.attr == 'round'
+                  and isinstance(c.func.value, ast.Name)
+                  and c.func.value.id in ('np', 'numpy'))
+    ctx.ob(rule, 'validation.utils:writer-rounds', w.loc(), n_round >= 2,
+           f'the validation writers round with np.round ({n_round} sites)'
+           if n_round >= 2 else
+           'the validation writers no longer round with np.round: the '
+           'agreement with choose_int_dtype has to be re-established')
